@@ -506,6 +506,14 @@ class Calls(Interp):
         if isinstance(v, VTuple): return VInt(len(v.items))
         raise Unsupported("len of %r" % (v,))
 
+    def bi_bool(self, args, kwargs, node):
+        return VBool(self.truth(args[0])) if args else VBool(False)
+
+    def bi_int(self, args, kwargs, node):
+        if args and isinstance(args[0], (VInt, VBool)):
+            return VInt(args[0].t if isinstance(args[0], VInt) else z3.If(args[0].t, 1, 0))
+        raise Unsupported("int(x)")
+
     def bi_dict(self, args, kwargs, node):
         if args or kwargs:
             raise Unsupported("dict(...) with arguments")
